@@ -4,6 +4,8 @@
 package gpu_sharing
 
 import (
+	"math"
+
 	"k8s.io/apimachinery/pkg/util/uuid"
 
 	"github.com/NVIDIA/KAI-scheduler/pkg/scheduler/api/node_info"
@@ -44,11 +46,15 @@ func GetNodePreferableGpuForSharing(fittingGPUsOnNode []string, node *node_info.
 	}
 
 	deviceCounts := pod.ResReq.GetNumOfGpuDevices()
+	idleWholeGpus := int64(math.Floor(node.Idle.GPUs()))
+	newGpuGroups := int64(0)
 	for _, gpuIdx := range fittingGPUsOnNode {
 		if gpuIdx == pod_info.WholeGpuIndicator {
 			if wholeGpuForSharing := findGpuForSharingOnNode(pod, node, isPipelineOnly); wholeGpuForSharing != nil {
+				// Every newly opened gpu group takes a whole GPU of its own: beyond the idle ones it is releasing
+				newGpuGroups++
 				nodeGpusSharing.IsReleasing =
-					nodeGpusSharing.IsReleasing || wholeGpuForSharing.IsReleasing
+					nodeGpusSharing.IsReleasing || wholeGpuForSharing.IsReleasing || newGpuGroups > idleWholeGpus
 				nodeGpusSharing.Groups = append(nodeGpusSharing.Groups, wholeGpuForSharing.Groups...)
 			}
 		} else {
